@@ -8,6 +8,10 @@
  *              0: safety scenario (arbitrary stops / degenerate geometry), only Begin/Done are logged
  *        kind  0 linear (p1x p1y p2x p2y)   1 radial (c1x c1y r1 c2x c2y r2)   2 conical (cx cy angle)
  *        all coordinates 16.16, colours 16 bit
+ *   M fmt n v0 .. v(n-1)
+ *        mask for the NEXT G/H line: an a8 (fmt 0) or a8r8g8b8 (fmt 1, colour bytes 0x5a) image of the destination's
+ *        size with these alpha values (row-major, n = dw*dh); the composite becomes OP_SRC (gradient IN mask) and
+ *        GradBegin carries "mask" (rows) and "mfmt"
  *   H claim kind nsteps {repeat}*nsteps wide nstops ... (rest as G)
  *        repeat-switch history on ONE image object: create; then for every step set_repeat (repeat_i) and
  *        composite; every step is logged exactly like a G scenario (GradBegin with that repeat, GradRow...,
@@ -34,6 +38,8 @@ q256 (float f)
 	return f < 0 ? -99999999L : 99999999L;
     return lrint (f * 65280.0);
 }
+
+static int mask_n = -1, mask_fmt, mask_v[4096];
 
 static long long
 rd (FILE *in)
@@ -64,6 +70,14 @@ main (int argc, char **argv)
 	    if (fscanf (in, "%127s", name) != 1) return 3;
 	    vt_reset (name);
 	}
+	else if (kind[0] == 'M')
+	{
+	    int i;
+	    mask_fmt = (int)rd (in);
+	    mask_n = (int)rd (in);
+	    if (mask_n < 0 || mask_n > 4096) return 3;
+	    for (i = 0; i < mask_n; i++) mask_v[i] = (int)rd (in) & 255;
+	}
 	else if (kind[0] == 'G' || kind[0] == 'H')
 	{
 	    int claim = (int)rd (in), k = (int)rd (in);
@@ -71,7 +85,8 @@ main (int argc, char **argv)
 	    int wide;
 	    int ns, i, ng, hasT, dw, dh, g[6], m[9], x, y;
 	    pixman_gradient_stop_t stops[MAXSTOPS];
-	    pixman_image_t *src = NULL, *dst;
+	    pixman_image_t *src = NULL, *dst, *msk = NULL;
+	    uint32_t *mbits = NULL;
 	    pixman_transform_t t;
 	    void *bits;
 	    if (nsteps < 1 || nsteps > 8) return 3;
@@ -94,6 +109,20 @@ main (int argc, char **argv)
 	    for (i = 0; i < 9; i++) m[i] = hasT ? (int)rd (in) : 0;
 	    dw = (int)rd (in);
 	    dh = (int)rd (in);
+	    if (mask_n >= 0 && mask_n != dw * dh) return 3;
+	    if (mask_n >= 0)
+	    {
+		/* both formats use 4-byte aligned rows of dw words; a8 rows keep their padding bytes at 0 */
+		mbits = calloc ((size_t)dw * dh, 4);
+		for (i = 0; i < mask_n; i++)
+		{
+		    if (mask_fmt == 0)
+			((uint8_t *)mbits)[(i / dw) * dw * 4 + i % dw] = (uint8_t)mask_v[i];
+		    else
+			mbits[i] = ((uint32_t)mask_v[i] << 24) | 0x5a5a5a;
+		}
+		msk = pixman_image_create_bits (mask_fmt == 0 ? PIXMAN_a8 : PIXMAN_a8r8g8b8, dw, dh, mbits, dw * 4);
+	    }
 
 	    alarm (20);
 	    if (k == 0)
@@ -138,6 +167,20 @@ main (int argc, char **argv)
 		vt_int ("dw", dw);
 		vt_int ("dh", dh);
 		if (nsteps > 1) vt_int ("step", step);
+		if (msk)
+		{
+		    vt_str ("mfmt", mask_fmt == 0 ? "a8" : "a8r8g8b8");
+		    vt_key ("mask");
+		    fputc ('[', vt_out);
+		    for (y = 0; y < dh; y++)
+		    {
+			fputs (y ? ",[" : "[", vt_out);
+			for (x = 0; x < dw; x++)
+			    fprintf (vt_out, x ? ",%d" : "%d", mask_v[y * dw + x]);
+			fputc (']', vt_out);
+		    }
+		    fputc (']', vt_out);
+		}
 	    }
 	    vt_end ();
 
@@ -158,7 +201,7 @@ main (int argc, char **argv)
 	    if (src)
 	    {
 		pixman_image_set_repeat (src, (pixman_repeat_t)rep);
-		pixman_image_composite32 (PIXMAN_OP_SRC, src, NULL, dst, 0, 0, 0, 0, 0, 0, dw, dh);
+		pixman_image_composite32 (PIXMAN_OP_SRC, src, msk, dst, 0, 0, 0, 0, 0, 0, dw, dh);
 	    }
 	    alarm (0);
 
@@ -201,6 +244,9 @@ main (int argc, char **argv)
 	    free (bits);
 	    }
 	    if (src) pixman_image_unref (src);
+	    if (msk) pixman_image_unref (msk);
+	    free (mbits);
+	    mask_n = -1;
 	}
 	else
 	    return 3;
